@@ -1909,6 +1909,11 @@ Error BaseRAPass::set_shared_assignment(uint32_t shared_assignment_id, const RAA
 
   for (RABlock* block : blocks()) {
     if (block->shared_assignment_id() == shared_assignment_id) {
+      // Unreachable blocks have no liveness information and are never allocated.
+      if (!block->is_reachable()) {
+        continue;
+      }
+
       ASMJIT_ASSERT(!block->has_entry_assignment());
 
       PhysToWorkMap* entry_phys_to_work_map = clone_phys_to_work_map(from_assignment.phys_to_work_map());
